@@ -219,6 +219,21 @@ pub(crate) fn value_of_correct_type(
                     );
                 }
 
+                // Input object field names must be unique within one literal
+                for (index, (name, _)) in obj.iter().enumerate() {
+                    if let Some((original, _)) = obj[..index].iter().find(|(other, _)| other == name)
+                    {
+                        diagnostics.push(
+                            name.location(),
+                            DiagnosticData::UniqueInputValue {
+                                name: name.clone(),
+                                original_definition: original.location(),
+                                redefined_definition: name.location(),
+                            },
+                        );
+                    }
+                }
+
                 input_obj.fields.iter().for_each(|(input_name, f)| {
                     let ty = &f.ty;
                     let is_missing = !obj.iter().any(|(value_name, ..)| input_name == value_name);
